@@ -131,7 +131,7 @@ pub struct PanicInfo {
 
 impl PanicInfo {
     pub fn signature(&self) -> String {
-        let mut m: String = self.msg.chars().map(|c| if c.is_ascii_digit() { '#' } else { c }).collect();
+        let mut m: String = self.msg.chars().map(|c| if c.is_ascii_digit() || !c.is_ascii() { '#' } else { c }).collect();
         // collapse runs of '#'
         while m.contains("##") {
             m = m.replace("##", "#");
@@ -150,31 +150,55 @@ thread_local! {
 }
 
 fn innermost_mathcat_frame(bt: &str) -> String {
-    for line in bt.lines() {
-        let t = line.trim_start();
-        // "  12: libmathcat::canonicalize::foo::bar"
-        if let Some(pos) = t.find(": ") {
-            let (num, rest) = t.split_at(pos);
-            if num.chars().all(|c| c.is_ascii_digit()) {
-                let sym = &rest[2..];
-                if sym.contains("libmathcat::") {
-                    let mut s = sym.to_string();
-                    // strip generics and closures for stability
-                    s = s.replace("::{{closure}}", "");
-                    if let Some(i) = s.find("libmathcat::") {
-                        s = s[i + "libmathcat::".len()..].to_string();
-                    }
-                    let s: String = s.chars().filter(|c| !c.is_whitespace()).collect();
-                    // cut at first '<' or '>' remnants
-                    let s = s.split(['<', '>']).next().unwrap_or("").trim_end_matches(':').to_string();
-                    if !s.is_empty() {
-                        return s;
-                    }
+    // frames look like "  10: set_string_pref\n             at /repo/src/prefs.rs:690:36" (the "at" line may be missing)
+    let lines: Vec<&str> = bt.lines().collect();
+    let mut frames: Vec<(String, Option<String>)> = vec![];
+    for l in &lines {
+        let t = l.trim_start();
+        if let Some(loc) = t.strip_prefix("at ") {
+            if let Some(last) = frames.last_mut() {
+                if last.1.is_none() {
+                    last.1 = Some(loc.to_string());
                 }
+            }
+        } else if let Some(pos) = t.find(": ") {
+            if t[..pos].chars().all(|c| c.is_ascii_digit()) && pos > 0 {
+                frames.push((t[pos + 2..].to_string(), None));
             }
         }
     }
-    "?".to_string()
+    let mut seen_panic_machinery = false;
+    let mut helper: Option<String> = None;
+    for (name, at) in &frames {
+        let is_std = name.starts_with("core::") || name.starts_with("std::") || name.starts_with("alloc::") || name.starts_with("__rustc") || name.starts_with('<');
+        if name.contains("panicking") || name.contains("rust_begin_unwind") || name.contains("panic_") {
+            seen_panic_machinery = true;
+            continue;
+        }
+        if !seen_panic_machinery || is_std {
+            continue;
+        }
+        if let Some(at) = at {
+            if at.starts_with("/rustc/") || at.starts_with("./src/") || at.contains("/.cargo/registry/") {
+                continue;
+            }
+        }
+        let n = name.split('<').next().unwrap_or("").trim();
+        if n.starts_with("{closure") || n.is_empty() {
+            continue;
+        }
+        let short = n.rsplit("::").next().unwrap_or(n).to_string();
+        // tiny helpers say little about the call site: add their caller
+        if ["as_element", "as_text", "get_parent", "name", "top", "pop"].contains(&short.as_str()) && helper.is_none() {
+            helper = Some(short);
+            continue;
+        }
+        return match helper {
+            Some(h) => format!("{}<-{}", h, short),
+            None => short,
+        };
+    }
+    helper.unwrap_or_else(|| "?".to_string())
 }
 
 pub fn install_panic_hook() {
@@ -190,11 +214,9 @@ pub fn install_panic_hook() {
             };
             let loc = info.location().map(|l| format!("{}:{}", l.file(), l.line())).unwrap_or_default();
             let bt = std::backtrace::Backtrace::force_capture().to_string();
-            let mut frame = innermost_mathcat_frame(&bt);
-            if frame == "?" {
-                // fall back to the source file of the panic location
-                frame = info.location().map(|l| l.file().rsplit('/').next().unwrap_or("").to_string()).unwrap_or_default();
-            }
+            let func = innermost_mathcat_frame(&bt);
+            let file = info.location().map(|l| l.file().rsplit('/').next().unwrap_or("").trim_end_matches(".rs").to_string()).unwrap_or_default();
+            let frame = format!("{}::{}", file, func);
             LAST_PANIC.with(|p| *p.borrow_mut() = Some(PanicInfo { msg, loc, frame }));
         } else {
             default(info);
